@@ -95,6 +95,8 @@ func (g *Circle) Contains(obj Object) bool {
 		return g.containsPoint(other.Center())
 	case *Circle:
 		return geoDistancePoints(other.center, g.center)+other.meters <= g.meters
+	case *Feature:
+		return g.Contains(other.base)
 	case Collection:
 		for _, p := range other.Children() {
 			if !g.Contains(p) {
